@@ -229,6 +229,83 @@ class CFG:
             first = False
         return seen
 
+    # -- reachability with constant propagation of flags ---------------------
+    def _const_effect(self, n, state):
+        """State after executing node n normally: local names assigned a constant get that constant; any other binding
+        of a tracked name makes it unknown."""
+        a = n.ast
+        st = dict(state)
+        if n.kind == "stmt" and isinstance(a, ast.Assign) and len(a.targets) == 1 and isinstance(a.targets[0], ast.Name) \
+                and isinstance(a.value, ast.Constant) and (a.value.value is None or isinstance(a.value.value, (bool, int))):
+            st[a.targets[0].id] = a.value.value
+            return st
+        if n.kind in ("stmt", "loop", "with") and a is not None:
+            exprs = [a] if n.kind == "stmt" else ([a.target] if isinstance(a, (ast.For, ast.AsyncFor)) else
+                                                   [i.optional_vars for i in getattr(a, "items", []) if i.optional_vars is not None])
+            for e in exprs:
+                for x in ast.walk(e):
+                    if isinstance(x, ast.Name) and isinstance(x.ctx, (ast.Store, ast.Del)) and x.id in st:
+                        del st[x.id]
+        return st
+
+    @staticmethod
+    def _const_test(t, st):
+        """Truth value of a test under the known constants (None if unknown)."""
+        if isinstance(t, ast.Constant):
+            return bool(t.value)
+        if isinstance(t, ast.Name):
+            return bool(st[t.id]) if t.id in st else None
+        if isinstance(t, ast.UnaryOp) and isinstance(t.op, ast.Not):
+            v = CFG._const_test(t.operand, st)
+            return None if v is None else (not v)
+        if isinstance(t, ast.BoolOp):
+            vs = [CFG._const_test(v, st) for v in t.values]
+            if isinstance(t.op, ast.And):
+                return False if any(v is False for v in vs) else (True if all(v is True for v in vs) else None)
+            return True if any(v is True for v in vs) else (False if all(v is False for v in vs) else None)
+        if isinstance(t, ast.Compare) and len(t.ops) == 1 and isinstance(t.left, ast.Name) and t.left.id in st \
+                and isinstance(t.comparators[0], ast.Constant):
+            a, b = st[t.left.id], t.comparators[0].value
+            op = t.ops[0]
+            if isinstance(op, (ast.Is, ast.Eq)):
+                return (a is b) if (a is None or b is None or isinstance(a, bool) or isinstance(b, bool)) else a == b
+            if isinstance(op, (ast.IsNot, ast.NotEq)):
+                return not ((a is b) if (a is None or b is None or isinstance(a, bool) or isinstance(b, bool)) else a == b)
+        return None
+
+    def explore_const(self, starts, avoid=(), skip_labels=()):
+        """Reachability that follows only feasible branches with respect to local flags holding constants
+        (`done = False ... while not done: ... done = True`).  *starts*: iterable of (node id, state dict).
+        Returns {node id: set of frozenset(state items)} of the configurations reached (start nodes excluded unless re-reached)."""
+        avoid = set(avoid)
+        seen = {}
+        todo = [(i, frozenset(st.items())) for i, st in starts]
+        first = set(todo)
+        done = set()
+        while todo:
+            i, fs = todo.pop()
+            if (i, fs) in done:
+                continue
+            done.add((i, fs))
+            n = self.nodes[i]
+            st = dict(fs)
+            after = self._const_effect(n, st)
+            test = None
+            if n.kind == "if":
+                test = self._const_test(n.ast.test, st)
+            elif n.kind == "loop" and isinstance(n.ast, ast.While):
+                test = self._const_test(n.ast.test, st)
+            for j, lab in self.succ[i]:
+                if lab in skip_labels or j in avoid:
+                    continue
+                if test is not None and lab in ("T", "F") and (lab == "T") != test:
+                    continue
+                nxt = st if lab == "exc" else after
+                key = frozenset(nxt.items())
+                seen.setdefault(j, set()).add(key)
+                todo.append((j, key))
+        return seen
+
     def path_exists(self, a, b, avoid=(), skip_labels=()):
         a = a if isinstance(a, int) else a.id
         b = b if isinstance(b, int) else b.id
